@@ -1,7 +1,7 @@
 (* Proofs about the query pool of Model/Query.v (C09): every query in the pool is a reachable
    state of its state machine, poll never panics, a query past its deadline makes the pool
    progress, results are handed out at most once per add. *)
-From Coq Require Import List NArith Bool Lia Sorted.
+From Coq Require Import List Arith NArith Bool Lia Sorted.
 From Discv5V Require Import Model.Query Proofs.Query.
 Import ListNotations.
 Local Open Scope N_scope.
@@ -349,7 +349,6 @@ Proof.
     destruct (q_remove_ids i qs (pi_nodup _ PI')) as (_ & B & C & _).
     split; [lia|]. split; [exact B|]. split; [exact C|].
     eapply pi_reach; [exact PI'|apply q_find_in; exact F]. }
-  assert (STR : forall i0 (qs0 : list (N * pquery)), (forall j y, q_find j qs0 = Some y -> j <> i0 /\ q_find j qs = Some y) \/ True) by auto.
   destruct sc as [|i|i peer|i]; cbn [scan_post] in SP.
   - (* nothing to report *)
     assert (E : (p', out) = ({| next_id := next_id p; query_timeout := query_timeout p; queries := qs |},
@@ -425,4 +424,261 @@ Proof.
   - destruct (q_find j qs); inversion H; subst; exact I.
   - inversion H; subst; exact I.
   - destruct (q_find j qs); inversion H; subst; exact I.
+Qed.
+
+(* ------------------------------------------------------------------------------------------ *)
+(* every event keeps the pool invariant; no event panics *)
+
+Lemma pstep_inv p e p' o : ppinv p -> pstep p e = Some (p', o) -> ppinv p'.
+Proof.
+  unfold ppinv. intros PI H. destruct e as [k c t known|now order|i node closer|i node]; cbn [pstep] in H.
+  - unfold pool_add in H. inversion H; subst; clear H. cbn [queries].
+    apply pinv_insert; [exact PI|]. apply qreach_init.
+  - destruct (pool_poll p now order) as [[p1 s]|] eqn:E; [|discriminate]. inversion H; subst.
+    apply (pool_poll_spec _ _ _ _ _ PI E).
+  - unfold pool_on_success in H. destruct (q_find i (queries p)) as [x|] eqn:F; [|inversion H; subst; exact PI].
+    destruct (on_success (qiter x) node closer) as [q1|] eqn:E; [|discriminate]. inversion H; subst; clear H.
+    cbn [queries]. apply pinv_insert; [exact PI|]. cbn [qiter].
+    eapply (qreach_step _ (ESuccess node closer)); [eapply pi_reach; [exact PI|apply q_find_in; exact F]|].
+    cbn [step]. rewrite E. reflexivity.
+  - unfold pool_on_failure in H. destruct (q_find i (queries p)) as [x|] eqn:F; [|inversion H; subst; exact PI].
+    destruct (on_failure (qiter x) node) as [q1|] eqn:E; [|discriminate]. inversion H; subst; clear H.
+    cbn [queries]. apply pinv_insert; [exact PI|]. cbn [qiter].
+    eapply (qreach_step _ (EFailure node)); [eapply pi_reach; [exact PI|apply q_find_in; exact F]|].
+    cbn [step]. rewrite E. reflexivity.
+Qed.
+
+Lemma pstep_no_panic p e : ppinv p -> pstep p e <> None.
+Proof.
+  intros PI. destruct e as [k c t known|now order|i node closer|i node]; cbn [pstep].
+  - destruct (pool_add p k c t known); discriminate.
+  - pose proof (pool_poll_no_panic p now order PI). destruct (pool_poll p now order) as [[? ?]|]; congruence.
+  - unfold pool_on_success. destruct (q_find i (queries p)) as [x|] eqn:F; [|discriminate].
+    assert (W : wf (qiter x)) by (apply qreach_wf; eapply pi_reach; [exact PI|apply q_find_in; exact F]).
+    pose proof (step_no_panic _ (ESuccess node closer) W) as NP. cbn [step] in NP.
+    destruct (on_success (qiter x) node closer); [discriminate|congruence].
+  - unfold pool_on_failure. destruct (q_find i (queries p)) as [x|] eqn:F; [|discriminate].
+    assert (W : wf (qiter x)) by (apply qreach_wf; eapply pi_reach; [exact PI|apply q_find_in; exact F]).
+    pose proof (step_no_panic _ (EFailure node) W) as NP. cbn [step] in NP.
+    destruct (on_failure (qiter x) node); [discriminate|congruence].
+Qed.
+
+Lemma prun_inv evs : forall p p' os, ppinv p -> prun evs p = Some (p', os) -> ppinv p'.
+Proof.
+  induction evs as [|e evs IH]; intros p p' os PI H; cbn [prun] in H.
+  - inversion H; subst; exact PI.
+  - destruct (pstep p e) as [[p1 o]|] eqn:S; [|discriminate].
+    destruct (prun evs p1) as [[p2 os1]|] eqn:R; [|discriminate]. inversion H; subst.
+    eapply IH; [|exact R]. eapply pstep_inv; eauto.
+Qed.
+
+Lemma prun_no_panic evs : forall p, ppinv p -> prun evs p <> None.
+Proof.
+  induction evs as [|e evs IH]; intros p PI; cbn [prun]; [discriminate|].
+  pose proof (pstep_no_panic p e PI). destruct (pstep p e) as [[p1 o]|] eqn:S; [|congruence].
+  specialize (IH p1 (pstep_inv _ _ _ _ PI S)). destruct (prun evs p1) as [[? ?]|]; congruence.
+Qed.
+
+(* ------------------------------------------------------------------------------------------ *)
+(* result_once: per id, results handed out <= adds; strictly fewer while the id is in the pool *)
+
+Definition is_terminal (i : N) (o : pout) : bool :=
+  match o with
+  | POPoll (PFinished j _) | POPoll (PTimeout j _) => i =? j
+  | _ => false
+  end.
+Definition is_added (i : N) (o : pout) : bool :=
+  match o with POAdded j => i =? j | _ => false end.
+Definition count_out (f : pout -> bool) (os : list pout) : nat := length (filter f os).
+
+Definition once_inv (p : pool) (nterm nadd : N -> nat) : Prop :=
+  forall i, (In i (ids (queries p)) -> (nterm i + 1 <= nadd i)%nat) /\
+            (~ In i (ids (queries p)) -> (nterm i <= nadd i)%nat).
+
+Lemma pstep_once p e p' o nterm nadd : ppinv p -> pstep p e = Some (p', o) -> once_inv p nterm nadd ->
+  once_inv p' (fun i => (nterm i + if is_terminal i o then 1 else 0)%nat)
+              (fun i => (nadd i + if is_added i o then 1 else 0)%nat).
+Proof.
+  intros PI H OI. destruct e as [k c t known|now order|j node closer|j node]; cbn [pstep] in H.
+  - unfold pool_add in H. inversion H; subst; clear H. intros i. cbn [queries is_terminal is_added].
+    destruct (OI i) as [A B].
+    destruct (in_dec N.eq_dec (next_id p) (ids (queries p))) as [I|NI].
+    + rewrite q_insert_ids_present by exact I. destruct (N.eqb_spec i (next_id p)); split; intros Hi.
+      * specialize (A Hi). lia.
+      * exfalso. apply Hi. subst. exact I.
+      * specialize (A Hi). lia.
+      * specialize (B Hi). lia.
+    + rewrite q_insert_ids_absent by exact NI. destruct (N.eqb_spec i (next_id p)); split; intros Hi.
+      * subst. specialize (B NI). lia.
+      * exfalso. apply Hi. apply in_or_app. right. left. auto.
+      * apply in_app_or in Hi as [Hi|[E|[]]]; [specialize (A Hi); lia|congruence].
+      * assert (~ In i (ids (queries p))) by (intros I; apply Hi; apply in_or_app; left; exact I).
+        specialize (B H). lia.
+  - destruct (pool_poll p now order) as [[p1 s]|] eqn:E; [|discriminate]. inversion H; subst; clear H.
+    destruct (pool_poll_spec _ _ _ _ _ PI E) as (_ & _ & _ & OUT & _). intros i. destruct (OI i) as [A B].
+    cbn [is_added]. destruct s as [|[[j peer]|]|j x|j x]; cbn [is_terminal].
+    + destruct OUT as (_ & _ & ID). rewrite ID. split; intros; [specialize (A H)|specialize (B H)]; lia.
+    + destruct OUT as (_ & ID & _). rewrite ID. split; intros; [specialize (A H)|specialize (B H)]; lia.
+    + destruct OUT as (_ & ID). rewrite ID. split; intros; [specialize (A H)|specialize (B H)]; lia.
+    + destruct OUT as (_ & IN & NIN & OTH & _). destruct (N.eqb_spec i j).
+      * subst. split; intros; [contradiction|]. specialize (A IN). lia.
+      * rewrite (OTH i n). split; intros; [specialize (A H)|specialize (B H)]; lia.
+    + destruct OUT as (_ & IN & NIN & OTH & _). destruct (N.eqb_spec i j).
+      * subst. split; intros; [contradiction|]. specialize (A IN). lia.
+      * rewrite (OTH i n). split; intros; [specialize (A H)|specialize (B H)]; lia.
+  - assert (ID : ids (queries p') = ids (queries p)).
+    { unfold pool_on_success in H. destruct (q_find j (queries p)) as [x|] eqn:F; [|inversion H; subst; reflexivity].
+      destruct (on_success (qiter x) node closer); [|discriminate]. inversion H; subst. cbn [queries].
+      apply q_insert_ids_present. eapply q_find_some_ids; eauto. }
+    assert (O : o = POUnit).
+    { unfold pool_on_success in H. destruct (q_find j (queries p)); [|inversion H; reflexivity].
+      destruct (on_success _ _ _); inversion H; reflexivity. }
+    subst o. cbn [is_terminal is_added]. intros i. rewrite ID. destruct (OI i) as [A B].
+    split; intros Hi; [specialize (A Hi)|specialize (B Hi)]; lia.
+  - assert (ID : ids (queries p') = ids (queries p)).
+    { unfold pool_on_failure in H. destruct (q_find j (queries p)) as [x|] eqn:F; [|inversion H; subst; reflexivity].
+      destruct (on_failure (qiter x) node); [|discriminate]. inversion H; subst. cbn [queries].
+      apply q_insert_ids_present. eapply q_find_some_ids; eauto. }
+    assert (O : o = POUnit).
+    { unfold pool_on_failure in H. destruct (q_find j (queries p)); [|inversion H; reflexivity].
+      destruct (on_failure _ _); inversion H; reflexivity. }
+    subst o. cbn [is_terminal is_added]. intros i. rewrite ID. destruct (OI i) as [A B].
+    split; intros Hi; [specialize (A Hi)|specialize (B Hi)]; lia.
+Qed.
+
+Lemma prun_once evs : forall p p' os nterm nadd, ppinv p -> prun evs p = Some (p', os) -> once_inv p nterm nadd ->
+  once_inv p' (fun i => (nterm i + count_out (is_terminal i) os)%nat)
+              (fun i => (nadd i + count_out (is_added i) os)%nat).
+Proof.
+  induction evs as [|e evs IH]; intros p p' os nterm nadd PI H OI; cbn [prun] in H.
+  - inversion H; subst. intros i. unfold count_out; cbn. rewrite !Nat.add_0_r. apply OI.
+  - destruct (pstep p e) as [[p1 o]|] eqn:S; [|discriminate].
+    destruct (prun evs p1) as [[p2 os1]|] eqn:R; [|discriminate]. inversion H; subst; clear H.
+    pose proof (IH _ _ _ _ _ (pstep_inv _ _ _ _ PI S) R (pstep_once _ _ _ _ _ _ PI S OI)) as OI'.
+    intros i. specialize (OI' i). unfold count_out in *. cbn [filter].
+    destruct (is_terminal i o), (is_added i o); cbn [length]; destruct OI' as [A B]; split; intros Hi;
+      try specialize (A Hi); try specialize (B Hi); lia.
+Qed.
+
+Lemma result_once timeout evs p os i :
+  prun evs (pool_new timeout) = Some (p, os) ->
+  (count_out (is_terminal i) os <= count_out (is_added i) os)%nat /\
+  (In i (ids (queries p)) -> (count_out (is_terminal i) os < count_out (is_added i) os)%nat).
+Proof.
+  intros R.
+  pose proof (prun_once evs _ _ _ (fun _ => 0%nat) (fun _ => 0%nat) (pool_new_inv timeout) R) as OI.
+  assert (OI0 : once_inv (pool_new timeout) (fun _ => 0%nat) (fun _ => 0%nat)).
+  { intros j. cbn. split; [intros []|lia]. }
+  specialize (OI OI0 i). cbn in OI. destruct OI as [A B]. split.
+  - destruct (in_dec N.eq_dec i (ids (queries p))) as [I|NI]; [specialize (A I)|specialize (B NI)]; lia.
+  - intros I. specialize (A I). lia.
+Qed.
+
+(* ------------------------------------------------------------------------------------------ *)
+(* progress: the weight of the pool *)
+
+Lemma pool_mu_poll p now order p' out : ppinv p -> pool_poll p now order = Some (p', out) ->
+  mu (queries p') <= mu (queries p) /\
+  (match out with PIdle | PWaiting None => True | _ => mu (queries p') < mu (queries p) end) /\
+  (forall j, In j (ids (queries p')) -> In j (ids (queries p))).
+Proof.
+  intros PI H. destruct (pool_poll_spec _ _ _ _ _ PI H) as (_ & _ & _ & OUT & _).
+  destruct out as [|[[j peer]|]|j x|j x].
+  - destruct OUT as (_ & M & ID). rewrite ID. repeat split; auto; lia.
+  - destruct OUT as (M & ID & _). rewrite ID. repeat split; auto; lia.
+  - destruct OUT as (M & ID). rewrite ID. repeat split; auto; lia.
+  - destruct OUT as (M & _ & NIN & OTH & _). repeat split; try lia.
+    intros i I. destruct (N.eq_dec i j); [subst; contradiction|]. apply (OTH i); auto.
+  - destruct OUT as (M & _ & NIN & OTH & _). repeat split; try lia.
+    intros i I. destruct (N.eq_dec i j); [subst; contradiction|]. apply (OTH i); auto.
+Qed.
+
+Lemma pool_mu_failure p i node p' : pool_on_failure p i node = Some p' -> mu (queries p') = mu (queries p).
+Proof.
+  unfold pool_on_failure. destruct (q_find i (queries p)) as [x|] eqn:F; [|intros H; inversion H; reflexivity].
+  destruct (on_failure (qiter x) node) as [q1|] eqn:E; [|discriminate]. intros H; inversion H; subst; clear H.
+  cbn [queries]. pose proof (mu_insert i x {| qiter := q1; started := started x |} _ F) as M.
+  unfold qweight in M. cbn [qiter] in M. rewrite (on_failure_budget _ _ _ E) in M. lia.
+Qed.
+
+Lemma pool_mu_success p i node closer p' : pool_on_success p i node closer = Some p' ->
+  mu (queries p') <= mu (queries p) + N.of_nat (length closer).
+Proof.
+  unfold pool_on_success. destruct (q_find i (queries p)) as [x|] eqn:F; [|intros H; inversion H; lia].
+  destruct (on_success (qiter x) node closer) as [q1|] eqn:E; [|discriminate]. intros H; inversion H; subst; clear H.
+  cbn [queries]. pose proof (mu_insert i x {| qiter := q1; started := started x |} _ F) as M.
+  unfold qweight in M. cbn [qiter] in M. pose proof (on_success_budget _ _ _ _ E). lia.
+Qed.
+
+Definition polls (l : list (N * list N)) : list pevent := map (fun no => PPoll (fst no) (snd no)) l.
+
+Lemma polls_absent l : forall p p' os i, ppinv p -> prun (polls l) p = Some (p', os) ->
+  q_find i (queries p) = None -> q_find i (queries p') = None.
+Proof.
+  induction l as [|[now order] l IH]; intros p p' os i PI R F; cbn [polls map prun] in R.
+  - inversion R; subst; exact F.
+  - cbn [pstep fst snd] in R. destruct (pool_poll p now order) as [[p1 s]|] eqn:E; [|discriminate].
+    destruct (prun (map _ l) p1) as [[p2 os1]|] eqn:R1; [|discriminate]. inversion R; subst; clear R.
+    destruct (pool_poll_spec _ _ _ _ _ PI E) as (PI1 & _). destruct (pool_mu_poll _ _ _ _ _ PI E) as (_ & _ & SUB).
+    eapply IH; [exact PI1|exact R1|]. apply q_find_none. intros I. apply q_find_none in F. apply F. apply SUB. exact I.
+Qed.
+
+(* past its deadline a query leaves the pool within mu polls (no new ids are reported meanwhile) *)
+Lemma pool_drains l : forall p p' os i x s,
+  ppinv p -> q_find i (queries p) = Some x -> started x = Some s ->
+  (forall no, In no l -> query_timeout p <= fst no - s) ->
+  prun (polls l) p = Some (p', os) ->
+  mu (queries p) < N.of_nat (length l) ->
+  q_find i (queries p') = None.
+Proof.
+  induction l as [|[now order] l IH]; intros p p' os i x s PI F St DL R M; cbn [length] in M; [lia|].
+  cbn [polls map prun pstep fst snd] in R.
+  destruct (pool_poll p now order) as [[p1 out]|] eqn:E; [|discriminate].
+  destruct (prun (map _ l) p1) as [[p2 os1]|] eqn:R1; [|discriminate]. inversion R; subst; clear R.
+  destruct (pool_poll_spec _ _ _ _ _ PI E) as (PI1 & _ & QT & _ & ST).
+  assert (OD : overdue now (query_timeout p) x).
+  { exists s. split; [exact St|]. apply (DL (now, order)). left; reflexivity. }
+  pose proof (poll_after_deadline _ _ _ _ _ _ _ PI F OD E) as NI.
+  destruct (pool_mu_poll _ _ _ _ _ PI E) as (_ & LT & _).
+  destruct (ST _ _ F) as [Gone|(x' & F' & S')].
+  - eapply polls_absent; eauto.
+  - eapply (IH p1 _ _ i x' s PI1 F').
+    + destruct S' as [S'|[S' _]]; congruence.
+    + intros no I. rewrite QT. apply DL. right; exact I.
+    + exact R1.
+    + destruct out as [|[[j peer]|]|j y|j y]; try contradiction; lia.
+Qed.
+
+(* every query the pool hands out is a reachable state of its state machine *)
+Lemma prun_outputs_reach evs : forall p p' os, ppinv p -> prun evs p = Some (p', os) ->
+  forall i x, (In (POPoll (PFinished i x)) os -> qreach (qiter x) /\ prog (qiter x) = Finished) /\
+              (In (POPoll (PTimeout i x)) os -> qreach (qiter x)).
+Proof.
+  induction evs as [|e evs IH]; intros p p' os PI H i x; cbn [prun] in H.
+  - inversion H; subst. split; intros [].
+  - destruct (pstep p e) as [[p1 o]|] eqn:S; [|discriminate].
+    destruct (prun evs p1) as [[p2 os1]|] eqn:R; [|discriminate]. inversion H; subst; clear H.
+    destruct (IH _ _ _ (pstep_inv _ _ _ _ PI S) R i x) as [A B].
+    split; intros [E|I]; auto; subst o.
+    + destruct e as [k c t known|now order|j node closer|j node]; cbn [pstep] in S.
+      * destruct (pool_add p k c t known); discriminate.
+      * destruct (pool_poll p now order) as [[p3 s]|] eqn:E; [|discriminate]. inversion S; subst.
+        destruct (pool_poll_spec _ _ _ _ _ PI E) as (_ & _ & _ & OUT & _). cbn in OUT. tauto.
+      * destruct (pool_on_success p j node closer); discriminate.
+      * destruct (pool_on_failure p j node); discriminate.
+    + destruct e as [k c t known|now order|j node closer|j node]; cbn [pstep] in S.
+      * destruct (pool_add p k c t known); discriminate.
+      * destruct (pool_poll p now order) as [[p3 s]|] eqn:E; [|discriminate]. inversion S; subst.
+        destruct (pool_poll_spec _ _ _ _ _ PI E) as (_ & _ & _ & OUT & _). cbn in OUT. tauto.
+      * destruct (pool_on_success p j node closer); discriminate.
+      * destruct (pool_on_failure p j node); discriminate.
+Qed.
+
+(* after a result is handed out the id is no longer in the pool *)
+Lemma absent_after_result p now order p' i x : ppinv p ->
+  (pool_poll p now order = Some (p', PFinished i x) \/ pool_poll p now order = Some (p', PTimeout i x)) ->
+  q_find i (queries p) <> None /\ q_find i (queries p') = None.
+Proof.
+  intros PI [H|H]; destruct (pool_poll_spec _ _ _ _ _ PI H) as (_ & _ & _ & OUT & _);
+    destruct OUT as (_ & IN & NIN & _); (split; [intros F; apply q_find_none in F; contradiction|apply q_find_none; exact NIN]).
 Qed.
